@@ -128,4 +128,6 @@ pub fn run(r: &mut Run) {
     let base = progdiff::base_preset(r);
     let p = Preset { returns: 2, aborts: 2, bang: true, coalesce: 4, infallible_assign: 3, closures: 4, ..base };
     r.sub("generated_programs", 100_000, 5_000_000, move || typesound::strategy(p), check_prog);
+    // stdlib calls with edge-value arguments, executed in killable worker processes
+    crate::props::c04_calls::register(r);
 }
